@@ -282,7 +282,11 @@ class OperatorNode(ASTNode):
         op = self.op_map.get(xop, xop)
 
         if self.type == Token.OP_PRE:
-            return self.value + args[0].emit
+            ss = self.value + args[0].emit
+            if isinstance(self.parent, OperatorNode) and self.parent.value == '^':
+                # python binds ** tighter than a unary minus on its left
+                ss = "(" + ss + ")"
+            return ss
 
         parent = self.parent
         if op == '%':
